@@ -5,6 +5,7 @@ use std::path::Path;
 pub mod rematch;
 pub mod audit;
 pub mod price;
+pub mod git;
 pub mod run;
 
 pub fn dispatch(case: &Value, dir: &Path) -> Value {
@@ -15,6 +16,7 @@ pub fn dispatch(case: &Value, dir: &Path) -> Value {
         Some("audit") => audit::op_audit(case, dir),
         Some("hash") => audit::op_hash(case, dir),
         Some("price") => price::op_price(case, dir),
+        Some("git") => git::op_git(case, dir),
         Some(op) => json!({"r": "BADCASE", "msg": format!("unknown op {op}")}),
         None => json!({"r": "BADCASE", "msg": "no op"}),
     }
